@@ -238,6 +238,13 @@ impl Env {
         self.inner.insert(key, value.into())
     }
 
+    /// all entries, sorted by variable name (the map itself iterates in a per-process order)
+    pub fn sorted_entries(&self) -> Vec<(&String, &EnvKey)> {
+        let mut entries: Vec<_> = self.inner.iter().collect();
+        entries.sort_by(|a, b| a.0.cmp(b.0));
+        entries
+    }
+
     pub fn get(&self, key: &str) -> Option<&EnvKey> {
         self.inner.get(key)
     }
